@@ -5,6 +5,7 @@ import ACModel.Spec.Discretizer
 import ACModel.Model.Json
 import ACModel.Model.Update
 import ACModel.Model.Summary
+import ACModel.Model.Remove
 /- driver requests around the fitted-state model: `disc.labels`, `disc.transform` -/
 open Lean Wire
 
@@ -122,6 +123,16 @@ def update (j : Json) : R Json := do
   let d ← argJ (← fld j "discarded")
   let k ← argJ (← fld j "kept")
   pure (exceptW stateW (s.update f mode d k))
+
+/-- `disc.remove`: `_remove_feature(feature)` on the state: the key sets of every per-feature attribute afterwards -/
+def remove (j : Json) : R Json := do
+  let s ← discJ (← fld j "state")
+  let f ← strF j "feature"
+  let s' := s.removeFeature f
+  pure (obj [("features", listW Json.str s'.features), ("quant", listW Json.str s'.quant), ("qual", listW Json.str s'.qual),
+             ("orders", listW Json.str (Disc.akeys s'.orders)), ("lpv", listW Json.str (Disc.akeys s'.lpv)),
+             ("feat_dropna", listW Json.str (Disc.akeys s'.featDropna)),
+             ("casting", assocW (listW Json.str) s'.casting)])
 
 /-- `disc.reload`: the JSON round trip of the state; `keystr` lists Python's `str(number)` -/
 def reload (j : Json) : R Json := do
